@@ -281,13 +281,49 @@ PASS_THROUGH = {
 }
 
 
-def is_lossless_map_err(term):
-    """`r.map_err(From::from)` / `map_err(Into::into)` / `map_err(Error::from)`: the error is converted, not replaced"""
+_PROG = [None]
+
+
+def set_prog(prog):
+    _PROG[0] = prog
+
+
+def is_lossless_map_err(term, body=None):
+    """`r.map_err(From::from)` / `map_err(Into::into)` / `map_err(Error::Io)` / `map_err(|e| { ..; Error::from(e) })`:
+    the error is converted or wrapped, not replaced (the closure form: its result is From::from / Error::Io / Into::into
+    of its own parameter)"""
     c = term.callee
-    if c is None or c.path != 'std::result::Result::map_err' or len(term.args) != 2 or not term.args[1].is_const:
+    if c is None or c.path not in ('std::result::Result::map_err',) or len(term.args) != 2:
         return False
-    f = str(term.args[1].fn() or '') + ' ' + str(term.args[1].j.get('s') or '')
-    return 'From>::from' in f or 'convert::From::from' in f or 'Into>::into' in f or 'convert::Into::into' in f or 'as std::convert::From' in f
+    a = term.args[1]
+    if a.is_const and 'closure' not in a.j:
+        f = str(a.fn() or '') + ' ' + str(a.j.get('s') or '')
+        return 'From>::from' in f or 'convert::From::from' in f or 'Into>::into' in f or 'convert::Into::into' in f or 'as std::convert::From' in f or f.strip().endswith('Error::Io')
+    prog = _PROG[0]
+    if prog is None or body is None:
+        return False
+    cb = None
+    if a.is_const and 'closure' in a.j:
+        cb = prog.bodies.get(a.j['closure'])
+    else:
+        for r in roots_of(body, a):
+            if r[0] == 'agg' and r[1].rv.j.get('agg') == 'closure':
+                cb = prog.bodies.get(r[1].rv.j['closure'])
+    if cb is None:
+        return False
+    rs = roots_of(cb, Place({'l': 0, 'p': []}))
+    if not rs:
+        return False
+    for r in rs:
+        if r[0] == 'call' and r[1].callee and (r[1].callee.path in ('std::convert::From::from', 'std::convert::Into::into')) and r[1].args:
+            src = roots_of(cb, r[1].args[0])
+        elif r[0] == 'agg' and r[1].rv.j.get('variant') == 'Io' and r[1].rv.ops:
+            src = roots_of(cb, r[1].rv.ops[0])
+        else:
+            return False
+        if not (src and all(q[0] == 'arg' and q[1] == 2 and not q[-1] for q in src)):
+            return False
+    return True
 
 
 def forward_sinks(body, local, follow_refs=True, max_nodes=500, through=(), skip_variants=()):
@@ -342,12 +378,14 @@ def forward_sinks(body, local, follow_refs=True, max_nodes=500, through=(), skip
                     work.append((node.place.local, True))
             elif kind == 'callarg':
                 out.append(('call', node, oi, via))
-                if through and node.callee is not None and (node.callee.path in through or is_lossless_map_err(node)) and not via:
+                if through and node.callee is not None and (node.callee.path in through or is_lossless_map_err(node, body) or (node.callee.path == 'std::result::Result::and_then' and oi == 0)) and not via:
                     if node.dest.is_local():
                         work.append((node.dest.local, via))
                     elif node.dest.local == 0:
                         out.append(('ret', None, 0, via))
             elif kind == 'drop':
+                if skip_variants and node.place is not None and any(p['k'] == 'downcast' and p['variant'] in skip_variants for p in node.place.proj):
+                    continue      # dropping what is left of the success payload is not dropping the error
                 out.append(('drop', node, 0, via))
             elif kind in ('switch', 'discr', 'callfunc', 'assert'):
                 out.append((kind, node, 0, via))
